@@ -8,18 +8,18 @@ flags, V observation, F env flags, R reward, L lower bound / max time, X error c
 CORE = "TSOAXE"
 
 PROPS = {
-    "C01": dict(families=["classic", "transport", "buffers", "setup", "outage", "stoch", "mixed"], kinds=CORE),
+    "C01": dict(families=["ordered", "classic", "transport", "buffers", "setup", "outage", "stoch", "mixed"], kinds=CORE),
     "C02": dict(families=["classic", "setup", "outage", "stoch", "mixed", "shifted"], kinds=CORE),
-    "C03": dict(families=["transport", "buffers", "mixed", "classic", "outage"], kinds=CORE),
+    "C03": dict(families=["ordered", "transport", "buffers", "mixed", "classic", "outage"], kinds=CORE),
     "C04": dict(families=["classic", "transport", "mixed", "buffers"], kinds=CORE + "F"),
-    "C05": dict(families=["classic", "transport", "buffers", "outage", "stoch", "mixed"], kinds=CORE + "F"),
+    "C05": dict(families=["ordered", "classic", "transport", "buffers", "outage", "stoch", "mixed"], kinds=CORE + "F"),
     "C06": dict(families=["classic"], kinds=CORE + "LFR"),
-    "C07": dict(families=["transport", "stoch", "mixed", "buffers"], kinds=CORE),
-    "C08": dict(families=["buffers", "mixed", "transport"], kinds=CORE),
+    "C07": dict(families=["ordered", "transport", "stoch", "mixed", "buffers"], kinds=CORE),
+    "C08": dict(families=["ordered", "buffers", "mixed", "transport"], kinds=CORE),
     "C09": dict(families=["setup", "stoch", "mixed"], kinds=CORE),
     "C10": dict(families=["outage", "stoch", "mixed"], kinds=CORE),
-    "C11": dict(families=["transport", "buffers", "mixed", "classic"], kinds=CORE),
-    "C12": dict(families=["shifted", "transport", "outage", "mixed", "classic"], kinds=CORE),
+    "C11": dict(families=["ordered", "transport", "buffers", "mixed", "classic"], kinds=CORE),
+    "C12": dict(families=["ordered", "shifted", "transport", "outage", "mixed", "classic"], kinds=CORE),
     "C13": dict(families=["classic", "stoch", "mixed", "buffers"], kinds=CORE + "VFRL"),
     "C14": dict(families=["classic", "transport", "bigids", "mixed", "shifted"], kinds="SOAVFXE"),
     "C15": dict(families=["classic", "transport", "bigids", "mixed"], kinds="SOAVXE"),
